@@ -652,6 +652,10 @@ def contracts():
             if z3.is_app(x) and x.decl().eq(PART) and x.arg(0).eq(m):
                 k = x.arg(1)
                 return z3.And(CT(m) != HTML_CT, MULTI(m), k >= 0, k < n, CT(PART(m, k)) == HTML_CT, none_before(k))
+        if isinstance(r, VUnk) and str(r.tag).startswith("havoc:"):
+            # round 8: a loop variable the executor HAVOCKED at a loop cut is a value it lost, not a value known to be wrong:
+            # answering False here turned the single-exit rewrite (`found = ..; break`, `return found`) into a definite refutation
+            raise Unsupported(f"result of _find_html_part is a loop variable cut by the loop rule ({r.tag})")
         return z3.BoolVal(False)          # anything else (a slice, a lower-cased copy, another value) is not the part
 
     def fhp_inv(lc, jq):
